@@ -21,7 +21,8 @@ def configs(tier):
           Config(levels=3, z=True, ndisks=3, hashkind="spooky2", hashsize=8),
           Config(levels=6, ndisks=2, uuid=True),
           Config(levels=2, ndisks=3, tag="hole"),
-          Config(levels=2, ndisks=2, tag="rehash"),
+          # (the FIRST content copy lives in a sub-directory of a data disk, the second on its own device)
+          Config(levels=2, ndisks=2, tag="rehash", contents=["d1/meta/.content", "c0/content"]),
           Config(levels=1, ndisks=4, tag="sparse")]
     if tier == "thorough":
         cs += [Config(levels=3, ndisks=4, blocksize=2), Config(levels=4, ndisks=3, hashkind="spooky2", selftest=True),
